@@ -1332,7 +1332,14 @@ func interopExport(w *tr.Writer, sc *ioScenario, logger *logrus.Logger) {
 		if err := json.Unmarshal(j, &root); err != nil {
 			return err
 		}
-		return validateOpenAPI(outb, v3)
+		err := validateOpenAPI(outb, v3)
+		if err != nil && strings.Contains(err.Error(), "kin-openapi bug found") {
+			// the validating library gives up on a schema that refers to itself several times; that says nothing
+			// about the document, which is then judged by the reader and the import back only
+			w.Emit(tr.Ev{"t": sc.ID, "e": "note", "what": "validator limitation: " + short(err)})
+			return nil
+		}
+		return err
 	})
 	stage(w, sc, "validate", err, nil)
 	if root == nil {
